@@ -16,6 +16,8 @@ import (
 	"sync"
 	"testing"
 	"time"
+
+	"github.com/B1NARY-GR0UP/originium/internal/zzgate"
 )
 
 // Case is one witness: a model of the symbolic inputs plus the concrete choice values.
@@ -45,6 +47,8 @@ type Result struct {
 	Obs      map[string]string `json:"obs,omitempty"`
 	Covers   []string          `json:"covers,omitempty"`
 	Mismatch []string          `json:"mismatch,omitempty"`
+	GatePos  int               `json:"gate_pos,omitempty"`   // gated replay: events of the trace consumed
+	GateLen  int               `json:"gate_len,omitempty"`
 }
 
 type state struct {
@@ -319,6 +323,7 @@ func runCase(c *Case, fns map[string]func()) (res Result) {
 		res = st.res
 		d := st.dir
 		st.mu.Unlock()
+		res.GatePos, res.GateLen = zzgate.Done()
 		if r != nil {
 			if _, ok := r.(assumeViolated); ok {
 				res.Assume = true
@@ -351,6 +356,7 @@ func runCase(c *Case, fns map[string]func()) (res Result) {
 	if fn == nil {
 		panic("zzvf: unknown harness " + name)
 	}
+	zzgate.Register(0) // the harness goroutine is logical goroutine 0 of a gated replay
 	fn()
 	return
 }
